@@ -45,7 +45,13 @@ type Pred struct {
 	C    int    `json:"c,omitempty"`
 	M    int    `json:"m,omitempty"`
 	R    int    `json:"r,omitempty"`
+	// the predicate FAILS on x when x mod EM == ER (EM > 0): it then answers (true, error) - an element whose
+	// predicate failed is not taken, whatever the boolean says
+	EM int `json:"em,omitempty"`
+	ER int `json:"er,omitempty"`
 }
+
+func (p Pred) fails(x int) bool { return p.EM > 0 && mod(x, p.EM) == p.ER }
 
 func (p Pred) apply(x int) bool {
 	switch p.Kind {
@@ -117,8 +123,20 @@ func (h *logRec) Handle(_ context.Context, r slog.Record) error {
 func (h *logRec) WithAttrs([]slog.Attr) slog.Handler { return h }
 func (h *logRec) WithGroup(string) slog.Handler      { return h }
 
+// the lifted values shared by all stages of the process, and the functions they currently stand for
+var (
+	curEither   func(int) (int, error)
+	curArrow    func(context.Context, int, chan<- int) error
+	sharedLift  = pipe.Lift(func(x int) (int, error) { return curEither(x) })
+	sharedTry   = pipe.Try(func(x int) (int, error) { return curEither(x) })
+	sharedLiftF = pipe.LiftF(func(ctx context.Context, x int, out chan<- int) error { return curArrow(ctx, x, out) })
+	sharedTryF  = pipe.TryF(func(ctx context.Context, x int, out chan<- int) error { return curArrow(ctx, x, out) })
+)
+
 // recorder of user-function calls and gates
 type calls struct {
+	decoy  bool // the recorder of the second instance (which never gets an element), or of a free-running run (whose
+	// goroutines may outlive the run: they get lifted values of their own)
 	mu     sync.Mutex
 	start  time.Time
 	at     []int // time of each call, in ticks since start (virtual under synctest)
@@ -248,6 +266,9 @@ func (s *Stage) eitherE(c *calls) func(int) (int, error) {
 func (s *Stage) predE(c *calls) func(int) (bool, error) {
 	return func(x int) (bool, error) {
 		c.enter(x)
+		if s.Pred.fails(x) {
+			return true, errVal(1000 + x)
+		}
 		return s.Pred.apply(x), nil
 	}
 }
@@ -285,11 +306,20 @@ func build(ctx context.Context, s *Stage, ins []chan int, c *calls) []output {
 	for i := range ins {
 		roIns[i] = ins[i]
 	}
+	// A lifted function is a value: the SAME pipe.Lift / pipe.Try (LiftF / TryF) value drives every stage of the whole
+	// process (it forwards to the function of the case at hand). Nothing of one stage's run may stick to it.
 	lift := func(f func(int) (int, error)) pipe.F[int, int] {
-		if s.Try {
-			return pipe.Try(f)
+		if c.decoy {
+			if s.Try {
+				return pipe.Try(f)
+			}
+			return pipe.Lift(f)
 		}
-		return pipe.Lift(f)
+		curEither = f
+		if s.Try {
+			return sharedTry
+		}
+		return sharedLift
 	}
 	switch s.Kind {
 	case "map":
@@ -299,8 +329,16 @@ func build(ctx context.Context, s *Stage, ins []chan int, c *calls) []output {
 		var ff pipe.FF[int, int]
 		if s.Try {
 			ff = pipe.TryF(s.arrow(c))
+			if !c.decoy {
+				curArrow = s.arrow(c)
+				ff = sharedTryF
+			}
 		} else {
 			ff = pipe.LiftF(s.arrow(c))
+			if !c.decoy {
+				curArrow = s.arrow(c)
+				ff = sharedLiftF
+			}
 		}
 		o, e := pipe.FMap(ctx, roIns[0], ff)
 		return []output{outInt(o), outErr(e)}
